@@ -212,6 +212,7 @@ def minimise(mod: Any, case: Any, klass: str, budget_s: float) -> tuple[Any, int
             if time.monotonic() >= deadline:
                 break
             tries += 1
+            t1 = time.monotonic()
             try:
                 vs = mod.run_case(cand, Stats())
             except Exception:
@@ -220,6 +221,10 @@ def minimise(mod: Any, case: Any, klass: str, budget_s: float) -> tuple[Any, int
                 current = cand
                 improved = True
                 break
+            if time.monotonic() - t1 > budget_s / 2:
+                # one candidate costs more than half the budget (a hang that runs into the CPU limit):
+                # minimisation is not worth its price here
+                return current, tries
     return current, tries
 
 
@@ -385,7 +390,7 @@ def run_check(prop: str, tier: str, seed: int, jobs: int, budget_s: float) -> in
     # ---- verdicts
     known = load_known(prop)
     exit_code = 0
-    max_report = int(os.environ.get("VERIF_MAX_REPORT", "5"))  # distinct violations minimised and written out
+    max_report = min(int(os.environ.get("VERIF_MAX_REPORT", "5")), int(plan.get("max_report", 5)))  # distinct violations minimised and written out
     reported: set[str] = set()
     known_hit: dict[str, str] = {}
     n_viol = 0
@@ -407,14 +412,20 @@ def run_check(prop: str, tier: str, seed: int, jobs: int, budget_s: float) -> in
         case = core.from_jsonable(f["case"])
         mini, tries = minimise(mod, case, v["class"], float(plan.get("minimise_s", 20.0)))
         note = f"minimised with {tries} candidate runs"
-        # replay the minimised case once more before writing it
-        try:
-            vs = mod.run_case(mini, Stats())
-            same = [x for x in vs if x.klass == v["class"]]
-        except Exception:
-            same = []
+        unchanged = mini is case
+        if unchanged:
+            # nothing smaller reproduced: the case is the one the search executed a moment ago
+            same = [None]
+            note += " (no smaller case reproduced)"
+        else:
+            # replay the minimised case once more before writing it
+            try:
+                vs = mod.run_case(mini, Stats())
+                same = [x for x in vs if x.klass == v["class"]]
+            except Exception:
+                same = []
         if same:
-            vrec = same[0].to_dict()
+            vrec = v if unchanged else same[0].to_dict()
             path = write_replay(prop, seed, mini, vrec, True, note, _readable(mod, mini))
         else:
             vrec = v
